@@ -434,7 +434,11 @@ def _netcdf_layout(ctx):
                     probs.append("%s: the variable is not created" % kw)
                     continue
                 t_, d_, v_ = made[name]
-                tn = _NC_TYPES.get(getattr(t_, "__name__", None) or (ts.pyval(t_) if not isinstance(t_, str) else t_), str(t_))
+                raw = getattr(t_, "__name__", None) or (ts.pyval(t_) if not isinstance(t_, str) else t_)
+                key_ = str(raw)
+                m_ = re.match(r"^(?:np|numpy)\.dtype\(['\"]?([\w<>]+)['\"]?\)$", key_)
+                key_ = m_.group(1) if m_ else re.sub(r"^(?:np|numpy)\.", "", key_)
+                tn = _NC_TYPES.get(key_, _NC_TYPES.get({"single": "f", "float_": "d"}.get(key_, key_), str(t_)))
                 if tn != typ:
                     probs.append("created as %s, the convention stores %s as %s%s" % (tn, name, typ, " (values are narrowed on assignment)" if (tn, typ) == ("float", "double") else ""))
                 if [got_size(x_) for x_ in d_] != [size(x_) for x_ in vdims]:
